@@ -235,7 +235,7 @@ theorem nnz_eq_count [DecidableEq α] {d : DOK α} (h : Canon d) :
     rw [List.perm_ext_iff_of_nodup hn1 (List.Nodup.sublist List.filter_sublist (nodup_allKeys _))]
     intro k
     rw [List.mem_filter, mem_allKeys, mem_keys_iff (canon_inv h)]
-    simp only [get, decide_eq_true_eq]
+    simp only [get]
     constructor
     · intro hne
       refine ⟨?_, decide_eq_true hne⟩
